@@ -16,6 +16,7 @@ def check(chk, thorough=False):
     chk.run('C10.b', 'R-FLOW', 'bundle identity is (source, creation time, sequence) plus (offset, total length) for fragments only', lambda ob: c10b(tree, ob), floor=2)
     chk.run('C10.c', 'R-FLOW', 'static routing takes the first matching route in table order, records its action only, and is skipped for bundles already claimed; own admin endpoint is delivered', lambda ob: c10c(tree, ob), floor=5)
     chk.run('C10.d', 'sibling', 'every application receive step checks deliver/destination/not-fragment before touching the bundle', lambda ob: c10d(tree, ob), floor=3)
+    chk.run('C10.f', 'R-ORDER', 'a bundle leaves the forwarding queue before it is processed, whatever the outcome (a failed forward is not processed again)', lambda ob: c10f(tree, ob), floor=1)
     chk.run('C10.e', 'R-WHO', 'actions are recorded only through record_action (two sanctioned direct edits)', lambda ob: c10e(tree, ob), floor=3)
 
 
@@ -25,7 +26,7 @@ def c10a(tree, ob):
     rec = one(recs, "record_action('receive')", ob)
     steps = [c for c in calls_in(fv.func) if pm('step.action(ctr)', c) is not None]
     step = one(steps, 'chain step invocation', ob)
-    adds = [c for c in calls_in(fv.func) if pm('self._seen_bundle_ident.add($i)', c) is not None]
+    adds = [c for c in calls_in(fv.func) if pm('self._seen_bundle_ident.add($i)', c) is not None or pm('self._seen_bundle_ident.append($i)', c) is not None]
     add = one(adds, 'seen-set add', ob)
     ident = src(add.args[0])
     idef = fv.value_at(add.args[0], add)
@@ -49,6 +50,16 @@ def c10a(tree, ob):
         ob.violate(AGENT, fv.qual, src(add), 'a bundle can be processed without its identity having been remembered first (a repeat of it is processed again)', add, path_text(wit or []))
     else:
         ob.site(AGENT, add, 'identity remembered before any processing')
+    # the memory of seen identities is an unbounded set
+    cls = tree.klass(AGENT, 'Agent')
+    inits = [(f, st, v) for (f, st, k, v) in stores_to_self_attr(cls, '_seen_bundle_ident')]
+    for (f, st, v) in inits:
+        if f.name == '__init__' and pm('set()', v) is not None:
+            ob.site(AGENT, st, 'seen identities kept in an unbounded set')
+        else:
+            ob.violate(AGENT, 'Agent.' + f.name, src(st), 'the memory of seen bundle identities is not an unbounded set: identities are forgotten (or replaced) and a late repeat is processed again', st)
+    if add.func.attr != 'add':
+        ob.violate(AGENT, fv.qual, src(add), 'identity is not added to a set', add)
     # the membership-true path returns without side effects
     c = memb
     tsucc = [s for (s, lab) in c.succ if lab is True][0]
@@ -183,6 +194,25 @@ def c10d(tree, ob):
         ob.violate(BASE, fb.qual, 'return True', '_recv_for accepts without checking {}'.format([t for (t, p) in miss]), r)
     else:
         ob.site(BASE, r, '_recv_for = delivered and addressed here and not a fragment')
+
+
+def c10f(tree, ob):
+    fv = FuncView(tree, AGENT, 'Agent._do_fwd')
+    pops = [c for c in calls_in(fv.func) if pm('self._fwd_queue.pop(0)', c) is not None or pm('self._fwd_queue.popleft()', c) is not None]
+    if len(pops) != 1:
+        ob.violate(AGENT, fv.qual, 'self._fwd_queue.pop(0)', 'the forwarding queue is not consumed exactly once per call', fv.func)
+        return
+    p = pops[0]
+    work = method_calls(fv.func, 'send_bundle', 'self') + method_calls(fv.func, '_finish_bundle', 'self') + method_calls(fv.func, 'record_action')
+    late = [w for w in work if not fv.dominates(p, w)[0] or fv.node(p) in fv.cfg.reachable([fv.node(w)])]
+    if late:
+        ob.violate(AGENT, fv.qual, '{} before {}'.format(src(late[0])[:40], src(p)), 'the bundle is processed while still at the head of the forwarding queue: when the send fails it stays there '
+                   'and is forwarded / reported again with the next bundle', p)
+    else:
+        ob.site(AGENT, p, 'queue head removed before the bundle is processed')
+    val = fv.value_at(ast.parse('ctr', mode='eval').body, work[0], depth=1) if work else None
+    if val is None or (pm('self._fwd_queue.pop(0)', val) is None and pm('self._fwd_queue.popleft()', val) is None):
+        ob.violate(AGENT, fv.qual, 'ctr = ' + (src(val) if val is not None else '?'), 'the bundle processed is not the one removed from the queue', p)
 
 
 def c10e(tree, ob):
